@@ -10,6 +10,8 @@
 D5  a register number placed in the low bits of the opcode byte (push/pop/mov imm) has its
     bit 3 carried by a REX prefix, as the full register name in the listing requires
 D6  a displacement is emitted as one byte only where it is known to lie in [-128, 127]
+D8  the memory-operand formats of the text emitter, instantiated with negative and large displacements, assemble to
+    that displacement
 D7  the displacement-free (mod=0) memory form is emitted only for bases other than rbp / r13
 """
 import os
@@ -345,6 +347,10 @@ def run(ctx):
     check_disp8(db, rep, "D6-DISP8-RANGE")
     from x86enc import check_mod0_base
     check_mod0_base(db, rep, "D7-MOD0-BASE")
+    from x86enc import check_listing_displacements
+    wd8 = os.path.join(ctx.scratch, "disp")
+    os.makedirs(wd8, exist_ok=True)
+    check_listing_displacements(db, rep, "D8-LISTING-DISPLACEMENT", wd8)
     d4(db, rep)
 
 
